@@ -29,6 +29,17 @@ EXTENDS FS, MC_C01_consts
 
 NUL == "^"         \* stands for the byte 0x00 (harness gamma/alpha translate)
 Oth == "~"         \* stands for "some other byte without meaning to filter or path lookup"
+\* Characters that mean nothing to the filter or to the kernel, but that a LATER normalisation /
+\* folding / lenient decoding step would turn into a dot or a separator (harness gamma: the
+\* Unicode compatibility characters U+FF0E, U+FF0F, U+FF3C, U+2025; raw UTF-8 in Gopher frames,
+\* percent-encoded in URL frames).  LkOverDot (overlong UTF-8 C0 AE) is defined for Fold but NOT in
+\* the token alphabet: it is two characters after decoding, which the one-character classes of
+\* this model cannot express faithfully (URLTypeRewriter indexes characters).
+LkDot == "Q"       \* look-alike of "."   (NFKC: ".")
+LkSlash == "J"     \* look-alike of "/"   (NFKC: "/")
+LkBack == "Y"      \* look-alike of "\"   (NFKC: "\")
+LkTwoDot == "T"    \* two-dot leader      (NFKC: "..")
+LkOverDot == "V"   \* overlong encoding of "." (a lenient decoder: ".")
 
 ---------------------------------------------------------------------------------
 (* Text *)
@@ -103,7 +114,19 @@ UrlSecure(s) == ~HasChar(s, NUL)        \* also LF TAB CR and the double quote: 
 
 ---------------------------------------------------------------------------------
 (* Paths *)
-FsPath(sel) == LET p == RootQ \o sel IN IF p[Len(p)] = "/" THEN SubSeq(p, 1, Len(p) - 1) ELSE p
+\* ASSUMPTION NoTransformAfterFilter (handlers/base.py VFS_Real.getfspath): the path handed to the
+\* operating system is LITERALLY root + selector - nothing rewrites the selector between the filter
+\* and the system call.  PostFilter is that (absent) step; Fold is what a normalising step would do.
+\* The containment theorem is about FsPath, i.e. it holds only under this assumption: MC_C01 counts
+\* the enumerated selectors for which IsSecure(d) holds and RootQ \o Fold(d) leaves the root
+\* (FoldWouldEscape) - the assumption is load-bearing for each of them.  The binding checks the
+\* assumption on the real code: every path in an audit event must be LiteralPath (design level).
+PostFilter(sel) == sel
+RECURSIVE Fold(_)
+Fold(s) == IF Len(s) = 0 THEN <<>>
+           ELSE (CASE s[1] = LkDot -> <<".">> [] s[1] = LkOverDot -> <<".">> [] s[1] = LkSlash -> <<"/">>
+                   [] s[1] = LkBack -> <<"\\">> [] s[1] = LkTwoDot -> <<".", ".">> [] OTHER -> <<s[1]>>) \o Fold(Tail(s))
+FsPath(sel) == LET p == RootQ \o PostFilter(sel) IN IF p[Len(p)] = "/" THEN SubSeq(p, 1, Len(p) - 1) ELSE p
 
 NoStat == [k |-> "none", f |-> "none", out |-> FALSE, err |-> "ENOENT", at |-> <<>>]
 \* vfs.stat(selector) on the real tree.  A NUL makes os.stat raise ValueError without a system call.
@@ -190,6 +213,13 @@ Remove(list, x) == SelectSeq(list, LAMBDA y : y # x)
 Range(f) == {f[i] : i \in DOMAIN f}
 
 \* what MaildirMessageHandler / MBoxMessageHandler answer on the real tree for message 1
+\* mailbox.mbox / mailbox.Maildir take os.path.abspath of the path they are given: for a selector that
+\* passed the filter that only drops a trailing "/." ("/m.mbox/." opens /m.mbox)
+RECURSIVE DropDotTail(_)
+DropDotTail(p) == IF Len(p) >= 2 /\ p[Len(p)] = "." /\ p[Len(p) - 1] = "/" THEN DropDotTail(SubSeq(p, 1, Len(p) - 2))
+                  ELSE IF Len(p) >= 1 /\ p[Len(p)] = "/" THEN DropDotTail(SubSeq(p, 1, Len(p) - 1))
+                  ELSE p
+MailboxStat(vfs, real) == IF vfs = "real" /\ ~HasChar(real, NUL) THEN StatP(DropDotTail(FsPath(real))) ELSE NoStat
 \* (a mailbox that does not exist / has no such message is FileNotFound since the fix for C03)
 MaildirMsgResp(s) == IF s.k = "none" THEN "notfound"                \* NoSuchMailboxError
                      ELSE IF s.f = "maildir" THEN "ok" ELSE "ioerror"
@@ -249,9 +279,9 @@ Dispatch(d, list, vfs, all) ==
                   IN [o EXCEPT !.h = "ZIPHandler", !.route = "zip/" \o o.route, !.tainted = o.tainted \/ used]
            [] h = "HTMLURLHandler" -> Outcome(h, h, "ok", d, FALSE, FALSE)
            [] h = "MaildirMessageHandler" ->
-                  Outcome(h, h, IF vfs = "real" THEN MaildirMsgResp(sv) ELSE "any", d, used, vfs # "real")
+                  Outcome(h, h, IF vfs = "real" THEN MaildirMsgResp(MailboxStat(vfs, v.real)) ELSE "any", d, used, vfs # "real")
            [] h = "MBoxMessageHandler" ->
-                  Outcome(h, h, IF vfs = "real" THEN MboxMsgResp(sv) ELSE "any", d, used, vfs # "real")
+                  Outcome(h, h, IF vfs = "real" THEN MboxMsgResp(MailboxStat(vfs, v.real)) ELSE "any", d, used, vfs # "real")
            [] h \in {"MaildirFolderHandler", "MBoxFolderHandler", "PYGHandler"} ->
                   Outcome(h, h, IF vfs = "real" THEN "ok" ELSE "any", d, used, vfs # "real")
            [] h = "ExecHandler" -> Outcome(h, h, "any", d, used, vfs # "real")
@@ -285,4 +315,24 @@ FilterGatesC(d, o) == ~IsSecure(d) => o.h \in {"none", "HTMLURLHandler"}
 ClimbIsNotFoundC(d, o) == (Hostile(d) /\ ~UrlShaped(d)) => o.resp = "notfound"
 \* no archive-internal relative path is handed to the operating system
 NoCwdRelativeC(o) == ~o.rel
+\* NoTransformAfterFilter as a clause of the model, and the witness that it is needed
+LiteralPathC(d) == PostFilter(d) = d
+FoldWouldEscape(d) == IsSecure(d) /\ NormalFormC(d) /\ ~Contained(RootQ \o Fold(d))
+
+\* Design-level check of the same assumption on the REAL code: p = a path that an audit event
+\* showed being handed to the OS, with the root prefix removed.  It must be a piece of the decoded
+\* selector d taken literally, followed by a tail made of names the handlers or the tree supply.
+TreeNames == {c[Len(c)] : c \in {c \in TreePaths : Len(c) > 0}}
+HandlerNames == {Q("gophermap"), Q("new"), Q("cur"), Q("tmp"), Q(".cache.pygopherd.dir"), Q(".cap"),
+                 Q(".cache.pygopherd.zip3.z.zip")}
+DbmExts == {Q(".db"), Q(".dat"), Q(".dir"), Q(".bak")}
+TrustedNames == TreeNames \cup HandlerNames
+IsTrustedComp(c) ==
+    \/ c = <<>> \/ c \in TrustedNames
+    \/ \E e \in SidecarExts \cup DbmExts : EndsWithQ(c, e) /\ (Len(c) = Len(e) \/ SubSeq(c, 1, Len(c) - Len(e)) \in TrustedNames)
+TrustedTail(t) ==
+    \/ t = <<>> \/ t \in SidecarExts
+    \/ (t[1] = "/" /\ LET cs == SplitQ(Tail(t), "/") IN \A i \in 1..Len(cs) : IsTrustedComp(cs[i]))
+LiteralPath(d, p) ==
+    \E k \in 0..Len(p) : TrustedTail(SubSeq(p, k + 1, Len(p))) /\ (k = 0 \/ HasQ(d, SubSeq(p, 1, k)))
 =============================================================================
